@@ -135,6 +135,9 @@ pub fn run_plan(plan: &Plan, replay: Option<Vec<u32>>) -> RunResult {
                 Body::Comm(c) => crate::fam_comm::run(&plan2, c),
                 Body::Status(c) => crate::fam_status::run(&plan2, c),
                 Body::Spawn(c) => crate::fam_spawn::run(&plan2, c),
+                Body::Drop(c) => crate::fam_drop::run(&plan2, c),
+                Body::Pipe(c) => crate::fam_pipe::run(&plan2, c),
+                Body::Builder(c) => crate::fam_builder::run(&plan2, c),
             }));
             match r {
                 Ok(fo) => *out2.lock().unwrap() = Some(fo),
